@@ -242,3 +242,213 @@ Proof.
       rewrite !orb_true_l, !orb_true_r. reflexivity.
     + unfold has_object. rewrite !fresh_not_has; auto; unfold T_managed, T_opaque; lia.
 Qed.
+
+(* ---------------------------------------------------------------- no partial object *)
+Definition complete_rows (rs : list row) : bool := forallb (complete_row rs) rs.
+
+Lemma class_tables_range : forall ot t, In t (class_tables ot) -> 1 <= t <= 10.
+Proof.
+  intros ot t H. unfold class_tables in H.
+  repeat match type of H with
+  | context [if ?c then _ else _] => destruct c
+  end; simpl in H;
+  repeat match type of H with
+  | _ \/ _ => destruct H as [H|H]
+  | False => contradiction
+  end; subst;
+  unfold T_crypto, T_keys, T_sym, T_pub, T_priv, T_split, T_cert, T_x509, T_secret, T_opaque; lia.
+Qed.
+
+Lemma has_mono_l : forall t k a b, has t k a = true -> has t k (a ++ b) = true.
+Proof. intros. rewrite has_app, H. reflexivity. Qed.
+Lemma has_mono_r : forall t k a b, has t k b = true -> has t k (a ++ b) = true.
+Proof. intros. rewrite has_app, H. apply orb_true_r. Qed.
+
+Lemma complete_row_mono_l : forall a b r, complete_row a r = true -> complete_row (a ++ b) r = true.
+Proof.
+  intros a b r H. unfold complete_row in *. destruct (r_tbl r =? T_managed); [|reflexivity].
+  rewrite forallb_forall in *. intros t Ht. apply has_mono_l. apply H, Ht.
+Qed.
+Lemma complete_row_mono_r : forall a b r, complete_row b r = true -> complete_row (a ++ b) r = true.
+Proof.
+  intros a b r H. unfold complete_row in *. destruct (r_tbl r =? T_managed); [|reflexivity].
+  rewrite forallb_forall in *. intros t Ht. apply has_mono_r. apply H, Ht.
+Qed.
+
+Lemma complete_rows_app : forall a b, complete_rows a = true -> complete_rows b = true -> complete_rows (a ++ b) = true.
+Proof.
+  intros a b Ha Hb. unfold complete_rows in *. rewrite forallb_app. apply andb_true_iff. split.
+  - rewrite forallb_forall in *. intros r Hr. apply complete_row_mono_l. apply Ha, Hr.
+  - rewrite forallb_forall in *. intros r Hr. apply complete_row_mono_r. apply Hb, Hr.
+Qed.
+
+Lemma complete_base_rows : forall uid ot, complete_rows (base_rows uid ot) = true.
+Proof.
+  intros uid ot. unfold complete_rows. rewrite forallb_forall. intros r Hr.
+  unfold base_rows in Hr. destruct Hr as [<-|Hr].
+  - unfold complete_row.
+    change (r_tbl (T_managed, uid, ot)) with T_managed. change (r_key (T_managed, uid, ot)) with uid.
+    change (r_val (T_managed, uid, ot)) with ot. rewrite Z.eqb_refl.
+    rewrite forallb_forall. intros t Ht.
+    unfold base_rows, has. simpl. apply orb_true_iff. right.
+    apply existsb_exists. exists (t, uid, if t =? T_crypto then ST_pre_active else 0). split.
+    + apply in_map_iff. exists t. split; [reflexivity|exact Ht].
+    + unfold at_key. simpl. rewrite !Z.eqb_refl. reflexivity.
+  - apply in_map_iff in Hr. destruct Hr as [t [<- Ht]].
+    apply class_tables_range in Ht. unfold complete_row.
+    change (r_tbl (t, uid, if t =? T_crypto then ST_pre_active else 0)) with t.
+    destruct (t =? T_managed) eqn:E; [unfold T_managed in E; lia|reflexivity].
+Qed.
+
+Lemma complete_name_rows : forall uid f n, complete_rows (name_rows uid f n) = true.
+Proof.
+  intros. unfold complete_rows. rewrite forallb_forall. intros r Hr.
+  unfold name_rows in Hr. apply in_map_iff in Hr. destruct Hr as [i [<- _]].
+  reflexivity.
+Qed.
+
+Definition safe_write (w : write) : bool :=
+  match w with
+  | WIns r => negb (r_tbl r =? T_managed)
+  | WUpd t _ _ => negb (t =? T_managed)
+  | WDel t _ => (t =? T_managed) || (T_opaque <? t)
+  end.
+
+Lemma has_map_upd : forall t k v t' k' rs,
+  has t' k' (map (fun r => if at_key t k r then (t, k, v) else r) rs) = has t' k' rs.
+Proof.
+  intros. unfold has. induction rs as [|r rs IH]; simpl; [reflexivity|].
+  rewrite IH. f_equal. destruct (at_key t k r) eqn:E; [|reflexivity].
+  unfold at_key in *. simpl. apply andb_true_iff in E. destruct E as [E1 E2].
+  apply Z.eqb_eq in E1. apply Z.eqb_eq in E2. rewrite E1, E2. reflexivity.
+Qed.
+
+Lemma complete_upd : forall t k v rs, t <> T_managed ->
+  complete_rows rs = true -> complete_rows (apply_rows (WUpd t k v) rs) = true.
+Proof.
+  intros t k v rs Ht H. unfold complete_rows in *. simpl apply_rows.
+  rewrite forallb_forall in *. intros r' Hr'. apply in_map_iff in Hr'. destruct Hr' as [r [<- Hr]].
+  specialize (H r Hr). unfold complete_row in *.
+  destruct (at_key t k r) eqn:E.
+  - change (r_tbl (t, k, v)) with t. destruct (t =? T_managed) eqn:E'; [apply Z.eqb_eq in E'; contradiction|reflexivity].
+  - destruct (r_tbl r =? T_managed); [|reflexivity].
+    rewrite forallb_forall in *. intros t' Ht'. rewrite has_map_upd. apply H, Ht'.
+Qed.
+
+Lemma has_filter_other : forall t k t' k' rs, t' <> t ->
+  has t' k' (filter (fun r => negb (at_key t k r)) rs) = has t' k' rs.
+Proof.
+  intros. unfold has. induction rs as [|r rs IH]; simpl; [reflexivity|].
+  destruct (at_key t k r) eqn:E; simpl.
+  - rewrite IH. unfold at_key in *. apply andb_true_iff in E. destruct E as [E1 _].
+    apply Z.eqb_eq in E1. rewrite E1.
+    destruct (t =? t') eqn:E'; [apply Z.eqb_eq in E'; congruence|reflexivity].
+  - rewrite IH. reflexivity.
+Qed.
+
+Lemma complete_del : forall t k rs, (t = T_managed \/ T_opaque < t) ->
+  complete_rows rs = true -> complete_rows (apply_rows (WDel t k) rs) = true.
+Proof.
+  intros t k rs Ht H. unfold complete_rows in *. simpl apply_rows.
+  rewrite forallb_forall in *. intros r Hr. apply filter_In in Hr. destruct Hr as [Hr _].
+  specialize (H r Hr). unfold complete_row in *.
+  destruct (r_tbl r =? T_managed); [|reflexivity].
+  rewrite forallb_forall in *. intros t' Ht'. rewrite has_filter_other; [apply H, Ht'|].
+  apply class_tables_range in Ht'. unfold T_managed, T_opaque in Ht. lia.
+Qed.
+
+Lemma complete_ins : forall r rs, r_tbl r <> T_managed ->
+  complete_rows rs = true -> complete_rows (apply_rows (WIns r) rs) = true.
+Proof.
+  intros r rs Hr H. simpl. apply complete_rows_app; [exact H|].
+  unfold complete_rows. simpl. unfold complete_row.
+  destruct (r_tbl r =? T_managed) eqn:E; [apply Z.eqb_eq in E; contradiction|reflexivity].
+Qed.
+
+Lemma complete_safe_write : forall w s, safe_write w = true ->
+  complete_rows (rows s) = true -> complete_rows (rows (apply_write s w)) = true.
+Proof.
+  intros w s Hw H. unfold apply_write. simpl rows. destruct w as [r|t k v|t k]; simpl in Hw.
+  - apply complete_ins; [|exact H]. intro E. rewrite E in Hw. discriminate.
+  - apply complete_upd; [|exact H]. intro E. rewrite E in Hw. discriminate.
+  - apply complete_del; [|exact H]. apply orb_true_iff in Hw. destruct Hw as [E|E]; [left|right]; lia.
+Qed.
+
+Lemma complete_safe_writes : forall ws s, forallb safe_write ws = true ->
+  complete_rows (rows s) = true -> complete_rows (rows (apply_writes ws s)) = true.
+Proof.
+  induction ws as [|w ws IH]; intros s Hs H; [exact H|].
+  simpl in Hs. apply andb_true_iff in Hs. destruct Hs as [Hw Hs].
+  unfold apply_writes. simpl. apply IH; [exact Hs|]. apply complete_safe_write; assumption.
+Qed.
+
+Lemma attr_write_safe : forall w, attr_write w = true -> safe_write w = true.
+Proof.
+  intros [r|t k v|t k]; unfold attr_write, attr_table, safe_write, T_names, T_appmap, T_managed, T_opaque; lia.
+Qed.
+
+Lemma complete_object_rows : forall uid ot f n, complete_rows (object_rows uid ot f n) = true.
+Proof. intros. unfold object_rows. apply complete_rows_app; [apply complete_base_rows|apply complete_name_rows]. Qed.
+
+Lemma complete_ins_rows : forall rs s, complete_rows (rows s) = true -> complete_rows rs = true ->
+  complete_rows (rows (apply_writes (map WIns rs) s)) = true.
+Proof. intros. rewrite rows_apply_ins. apply complete_rows_app; assumption. Qed.
+
+Lemma some_inj : forall (A : Type) (a b : A), Some a = Some b -> a = b.
+Proof. intros A a b H. congruence. Qed.
+
+Lemma post_complete : forall o s, complete s = true -> complete (post o s) = true.
+Proof.
+  intros o s H. change (complete_rows (rows s) = true) in H.
+  change (complete_rows (rows (post o s)) = true).
+  unfold post. destruct (writes_of o s) as [ws|] eqn:W; [|exact H].
+  destruct o; unfold writes_of in W.
+  - destruct valid; [|discriminate]. apply some_inj in W; subst ws.
+    rewrite rows_apply_ins. apply complete_rows_app; [exact H|apply complete_object_rows].
+  - destruct valid; [|discriminate]. apply some_inj in W; subst ws.
+    rewrite rows_apply_ins. apply complete_rows_app; [exact H|].
+    repeat apply complete_rows_app; try apply complete_base_rows; apply complete_name_rows.
+  - destruct (valid && storable ot); [|discriminate]. apply some_inj in W; subst ws.
+    rewrite rows_apply_ins. apply complete_rows_app; [exact H|apply complete_object_rows].
+  - destruct (valid && ((ot =? OT_symmetric) || (ot =? OT_secret))); [|discriminate]. apply some_inj in W; subst ws.
+    rewrite rows_apply_ins. apply complete_rows_app; [exact H|apply complete_object_rows].
+  - destruct (live uid s); [|discriminate].
+    destruct (lookup T_crypto uid (rows s)) as [st|]; [|discriminate].
+    destruct (st =? ST_pre_active); [|discriminate]. apply some_inj in W; subst ws.
+    apply complete_safe_writes; [reflexivity|exact H].
+  - destruct (live uid s); [|discriminate].
+    destruct (lookup T_crypto uid (rows s)) as [st|]; [|discriminate].
+    destruct compromise.
+    + destruct (st =? ST_destroyed); [apply some_inj in W; subst ws; apply complete_safe_writes; [reflexivity|exact H]|].
+      destruct (st =? ST_compromised); apply some_inj in W; subst ws; apply complete_safe_writes; try reflexivity; exact H.
+    + destruct (st =? ST_active); [|discriminate]. apply some_inj in W; subst ws.
+      apply complete_safe_writes; [reflexivity|exact H].
+  - destruct (live uid s); [|discriminate].
+    destruct (lookup T_crypto uid (rows s)) as [st|].
+    + destruct (st =? ST_active); [discriminate|].
+      destruct (st =? ST_compromised); apply some_inj in W; subst ws; apply complete_safe_writes; try reflexivity; exact H.
+    + apply some_inj in W; subst ws. apply complete_safe_writes; [reflexivity|exact H].
+  - destruct ok; simpl in W; [|discriminate].
+    destruct (forallb attr_write ws0) eqn:A; [|discriminate]. apply some_inj in W; subst ws.
+    apply complete_safe_writes; [|exact H].
+    rewrite forallb_forall in *. intros w Hw. apply attr_write_safe, A, Hw.
+Qed.
+
+Lemma recovered_complete : forall o s k,
+  complete s = true -> complete (recover (crash_at k (trace_of o s)) s) = true.
+Proof.
+  intros o s k H. destruct (atomic o s k) as [R|R]; rewrite R; [exact H|apply post_complete, H].
+Qed.
+
+Lemma posts_complete : forall ops s, complete s = true -> complete (posts ops s) = true.
+Proof.
+  induction ops as [|o tl IH]; intros s H; [exact H|].
+  unfold posts in *. simpl. apply IH. apply post_complete, H.
+Qed.
+
+Lemma workload_recovered_complete : forall ops s k,
+  complete s = true -> complete (recover (crash_at k (workload_trace ops s)) s) = true.
+Proof.
+  intros ops s k H. destruct (workload_crash ops s k) as [j [_ [R _]]]. rewrite R.
+  apply posts_complete, H.
+Qed.
